@@ -14,7 +14,7 @@ LEVEL = "exploration"
 RULE = (
     "Hypothesis: recursive JSON values under string-keyed dicts (None, bools, ints of any size, finite floats, "
     "full-Unicode text incl. astral and control code points, lists, nested dicts) and the real payload shape "
-    "{'code': text, 'options': {...}}; oracle: decode(encode(d)) == d, encoded matches [A-Za-z0-9_-]*, and an "
+    "{'code': text, 'options': {...}} incl. payloads of tens of kilobytes; oracle: decode(encode(d)) == d, encoded matches [A-Za-z0-9_-]*, and an "
     "independent urlsafe-base64/zlib/json decoder agrees. Non-trivial: the encoded text contains '-' or '_' or "
     "its length is not a multiple of 4 (padding had to be restored); distinct by SHA-1 of the value."
 )
@@ -72,6 +72,9 @@ def cases():
         payloads(),
         # size-stratified: byte strings of every length so that len(encoded) % 4 takes each value
         st.integers(0, 200).flatmap(lambda n: st.fixed_dictionaries({"k": st.text(alphabet="abcXYZ019 ~?>", min_size=n, max_size=n)})),
+        # large payloads (long programs: tens of kilobytes of JSON), built from a drawn piece and a repeat count
+        st.tuples(st.text(min_size=20, max_size=120), st.integers(1, 600), st.text(max_size=40)).map(
+            lambda t: {"code": (t[0] + "\n") * t[1] + t[2], "options": {"compact": True}}),
     )
     return top
 
@@ -117,7 +120,9 @@ def check_one(d, stats=None):
             stats.classes["payload-shape"] += 1
         if nt:
             stats.nontrivial.add(sha(d)[:16])
-        if len(json.dumps(d)) < 300:
+        n = len(json.dumps(d))
+        stats.classes["json-size:" + ("<1k" if n < 1000 else "1k-16k" if n < 16384 else ">=16k")] += 1
+        if n < 300:
             stats.sample({"value": d, "encoded": enc}, limit=3)
 
 
